@@ -275,17 +275,22 @@ def gen_case(ctx, r, maxn, all_partitions=False):
 def gen_deriv_case(r, maxn):
     """derivative correspondence: linear / polynomial kernels on arbitrary blocks (exact), Gaussian on 1x1 blocks (bit mode)"""
     dim = r.choice([1, 2, 3, 4]); n = r.range(2, maxn)
-    x = r.below(3)
+    x = r.below(4)
     if x == 0:
         toks, exact = ["lin"], True
     elif x == 1:
         toks, exact = ["poly", str(r.choice([1, 2, 2, 3, 4])), dy(r.choice([Fraction(0), Fraction(0), Fraction(1), Fraction(1, 2), Fraction(2)]))], True
-    else:
+    elif x == 2:
         toks, exact = ["gauss", dy(r.choice([Fraction(1, 4), Fraction(1, 2), Fraction(1), Fraction(2)]))], False
+    else:
+        # ARD: plain scalar loops in the C++ -> bit mode on arbitrary blocks
+        toks, exact = ["ard", str(dim)] + [dy(r.choice([Fraction(1, 4), Fraction(1, 2), Fraction(1), Fraction(2), Fraction(3, 8)])) for _ in range(dim)], False
+    if r.chance(1, 3):
+        toks = ["scaled", dy(r.choice([Fraction(1, 2), Fraction(2), Fraction(3), Fraction(1, 4)]))] + toks
     pts = gen_points(r, n, dim, False)
     ops = ["kern " + " ".join(toks), f"pts {n} {dim} " + " ".join(str(v) for p in pts for v in p)]
     for _ in range(r.range(2, 4)):
-        if toks[0] == "gauss":
+        if "gauss" in toks:
             a = r.below(n); b = a + 1; c = r.below(n); d = c + 1
         else:
             a = r.below(n); b = r.range(a + 1, n); c = r.below(n); d = r.range(c + 1, n)
@@ -294,7 +299,7 @@ def gen_deriv_case(r, maxn):
         ops.append(f"ideriv {a} {b} {c} {d} {co}")
     a = r.below(n); b = r.range(a + 1, n); c = r.below(n); d = r.range(c + 1, n)
     ops.append(f"dcheck {a} {b} {c} {d} " + " ".join(str(r.range(-2, 2)) for _ in range((b - a) * (d - c))))
-    return ops, dict(exact=exact, exact_case=exact, kinds={toks[0], "deriv"}, depth=0, n=n, dim=dim, parts=0, M=Fraction(1), f=0)
+    return ops, dict(exact=exact, exact_case=exact, kinds=set(kinds_of(ops)) | {"deriv"}, depth=0, n=n, dim=dim, parts=0, M=Fraction(1), f=0)
 
 
 def gen_discrete_case(r, all_partitions=False):
